@@ -8,10 +8,10 @@ COMMON = dict(src=SRC, env=["vp_alloc.c", "vp_libc.c"], units=["hwloc/bitmap.c"]
 B64 = ["hwloc_encode_to_base64", "hwloc_decode_from_base64"]
 HARNESSES = []
 for l, tiers in ((0, {"quick": {}, "thorough": {}}), (1, {"quick": {}, "thorough": {}}), (2, {"quick": {}, "thorough": {}}), (3, {"quick": {}, "thorough": {}}), (4, {"thorough": {}}), (5, {"thorough": {}}), (6, {"thorough": {}})):
-    HARNESSES.append(dict(COMMON, name="base64_roundtrip_%d" % l, entry="h_base64_roundtrip", defines={"L": l, "VP_MEM_BIG": 4096}, encoded=B64, tiers=tiers, bounds="every byte string of length %d (exhaustive over lengths 0..3 quick, 0..6 thorough: all residues mod 3)" % l, cost=10))
+    HARNESSES.append(dict(COMMON, core=(l <= 4), name="base64_roundtrip_%d" % l, entry="h_base64_roundtrip", defines={"L": l, "VP_MEM_BIG": 4096}, encoded=B64, tiers=tiers, bounds="every byte string of length %d (exhaustive over lengths 0..3 quick, 0..6 thorough: all residues mod 3)" % l, cost=10))
 HARNESSES.append(dict(COMMON, name="base64_decode_bytes", entry="h_base64_decode_bytes", encoded=["hwloc_decode_from_base64"], checks="safety+", tiers={"quick": {"defines": {"L": 4, "VP_MEM_BIG": 4096}}, "thorough": {"defines": {"L": 6, "VP_MEM_BIG": 4096}}}, bounds="every NUL-terminated text of 4 (6) arbitrary bytes, target size 0..4", cost=20))
 for l, tiers in ((1, {"quick": {}, "thorough": {}}), (2, {"quick": {}, "thorough": {}}), (3, {"thorough": {"timeout": 4000}})):
-    HARNESSES.append(dict(COMMON, name="escape_roundtrip_%d" % l, entry="h_escape_roundtrip", defines={"L": l, "VP_MEM_BIG": 4096}, unwind=6 * l + 4, encoded=["hwloc__nolibxml_export_escape_string", "hwloc__nolibxml_import_next_attr", "hwloc__nolibxml_import_ignore_spaces"], tiers=tiers,
+    HARNESSES.append(dict(COMMON, core=(l <= 2), name="escape_roundtrip_%d" % l, entry="h_escape_roundtrip", defines={"L": l, "VP_MEM_BIG": 4096}, unwind=6 * l + 4, encoded=["hwloc__nolibxml_export_escape_string", "hwloc__nolibxml_import_next_attr", "hwloc__nolibxml_import_ignore_spaces"], tiers=tiers,
                           bounds="every string of %d non-NUL bytes" % l, cost=40))
 for b64 in (1, 0):
     for l, tiers in ((0, {"quick": {}, "thorough": {}}), (1, {"thorough": {}}), (2, {"quick": {}, "thorough": {}}), (3, {"quick": {}, "thorough": {}}), (4, {"thorough": {}})):
